@@ -70,7 +70,7 @@ def _density_work(payload):
     sname, sopts = payload["strat"]
     fname, fopts = payload["flags"]
     aname, aopts = payload["angles"]
-    case = {"part": "density", "card": label, "strat": sname, "flags": fname, "angles": aname}
+    case = {"part": "density", "card": label, "strat": sname, "flags": fname, "angles": aname, "selection": bool(payload.get("selection"))}
     ms = [cfg["particle"]["$finals"][x]["mass"] for x in "BCD"]
     ev = kin.lattice3(zoo.M_TOP, ms, 4, seed=payload["seed"], orientations=2)
     ev = [kin.boost(a, np.array([0.2, -0.1, 0.3])) for a in ev]  # a moving parent, so that the angle options matter
@@ -100,11 +100,17 @@ def _density_work(payload):
     datas = {"d1": d1, "d2": d2}
     cf = getattr(amp, "cached_fun", None)
 
+    dg = amp.decay_group
+    nch = len(list(dg.chains))
+    full = tuple(range(nch))
+
     def canon():
-        return (id(d1) in amp.f_data, id(d2) in amp.f_data, tuple(sorted(getattr(cf, "cached_f", {}).keys())) if hasattr(cf, "cached_f") else (), state["pt"])
+        return (id(d1) in amp.f_data, id(d2) in amp.f_data, tuple(sorted(getattr(cf, "cached_f", {}).keys())) if hasattr(cf, "cached_f") else (), state["pt"],
+                tuple(dg.chains_idx), bool(dg.not_full))
 
     def save():
-        return (list(amp.f_data), dict(getattr(cf, "cached_f", {})) if hasattr(cf, "cached_f") else None, dict(getattr(cf, "struct", {})) if hasattr(cf, "struct") else None, state["pt"])
+        return (list(amp.f_data), dict(getattr(cf, "cached_f", {})) if hasattr(cf, "cached_f") else None, dict(getattr(cf, "struct", {})) if hasattr(cf, "struct") else None, state["pt"],
+                list(dg.chains_idx), bool(dg.not_full))
 
     def restore(s):
         amp.f_data = list(s[0])
@@ -113,15 +119,41 @@ def _density_work(payload):
             cf.struct = dict(s[2])
         state["pt"] = s[3]
         amp.set_params(pts[s[3]])
+        dg.chains_idx = list(s[4])
+        dg.not_full = s[5]
 
     state = {"pt": 1}
     amp.set_params(pts[1])
     ops = [("call", "d1"), ("call", "d2"), ("setp", 1), ("setp", 2)]
+    if payload.get("selection"):
+        # the same automaton with the active chain list as part of the state: unsorted and cross-topology selections,
+        # and a temporary selection entered and left on top of the current one
+        sels = [full, (1, 2), (2, 0), (1,)] + ([(3, 1, 0)] if nch >= 4 else [])
+        res_name = str(list(dg.chains)[1].inner[0]) if nch >= 2 else None
+        ops = [("call", "d1"), ("call", "d2")] + [("select", sel) for sel in sels] + [("tempres", res_name)]
+
+    def want_for(pt, sel):
+        key = (pt, tuple(sel))
+        if key not in want_sel:
+            a0.set_params(pts[pt])
+            a0.set_used_chains(list(sel))
+            want_sel[key] = np.asarray(a0.pdf(d_ref))
+            a0.set_used_chains(list(full))
+        return want_sel[key]
+
+    want_sel = {}
 
     def apply(op):
         if op[0] == "setp":
             amp.set_params(pts[op[1]])
             state["pt"] = op[1]
+            return None
+        if op[0] == "select":
+            amp.set_used_chains(list(op[1]))
+            return None
+        if op[0] == "tempres":
+            with amp.temp_used_res([op[1]]):
+                amp(datas["d1"])
             return None
         out = amp(datas[op[1]])
         return np.asarray(out)
@@ -140,7 +172,7 @@ def _density_work(payload):
                 continue
             transitions += 1
             if out is not None:
-                w = want[state["pt"]]
+                w = want[state["pt"]] if tuple(dg.chains_idx) == full else want_for(state["pt"], dg.chains_idx)
                 dev = np.abs(out - w).max() / scale if out.shape == w.shape else np.inf
                 res.case(nontrivial_key=(label, sname, fname, aname, canon(), op), outcome=(sname, fname))
                 if dev <= 1e-9:
@@ -163,9 +195,15 @@ def _density_work(payload):
             if op[0] == "setp":
                 amp2.set_params(pts[op[1]])
                 pt = op[1]
+            elif op[0] == "select":
+                amp2.set_used_chains(list(op[1]))
+            elif op[0] == "tempres":
+                with amp2.temp_used_res([op[1]]):
+                    amp2(dd["d1"])
             else:
                 out = np.asarray(amp2(dd[op[1]]))
-        dev = np.abs(out - want[pt]).max() / scale
+        sel2 = tuple(amp2.decay_group.chains_idx)
+        dev = np.abs(out - (want[pt] if sel2 == full else want_for(pt, sel2))).max() / scale
         res.count("traces_validated_against_impl")
         if dev > 1e-9:
             res.violation("density:fresh|%s|%s|%s" % (sname, fname, aname), "%s %s/%s: replay of %r on fresh objects differs from eager by %.3g" % (label, sname, fname, hist, dev), dict(case, hist=hist))
@@ -309,7 +347,7 @@ def run(tier, seed, only=None):
     rep = Report(
         PID, tier, seed, "exploration",
         rule="A1: cards x strategy tuples x flags x angle options, each with an explicit-state exploration of the call/cache automaton (states = ids seen x traced functions x parameter point; "
-             "ops call(d1), call(d2), set_params(P1|P2)) against eager default evaluation; A2: cached vs uncached likelihood models (NLL, gradient); A3: every harvested builder expression + "
+             "ops call(d1), call(d2), set_params(P1|P2); on two cards also with the active chain list in the state: ops select(chain lists incl. unsorted), temporary selection) against eager default evaluation; A2: cached vs uncached likelihood models (NLL, gradient); A3: every harvested builder expression + "
              "synthetic grammar vs numpy.einsum. distinct = (card, tuple, state, op) / expression",
         assumptions=["the abstract state of the automaton (ids seen, traced functions, parameter point) is the complete mutable hidden state of AbsPDF/WrapFun; sampled histories are replayed on fresh objects",
                      "jit_compile only in the thorough tier (XLA compile time)", "einsum operands: deterministic complex tensors with pairwise distinct entries; equal sizes per index letter"],
@@ -334,6 +372,14 @@ def run(tier, seed, only=None):
                         elif ai > 0 and fi > 1:
                             continue
                         items.append({"card": card, "strat": st, "flags": fl, "angles": an, "seed": seed, "depth": 3 if tier == "quick" else 5})
+        # chain selections as part of the automaton state: 3-chain card and the 4-chain card whose (B,C) resonances are
+        # declared non-contiguously, every strategy, eager and traced
+        for ci, card in enumerate(cards):
+            if card[0] not in ("vector_toy|BC+BD+CD", "scalar|all+second_BC"):
+                continue
+            for st in STRATS:
+                for fl in FLAGS[:2] if tier == "quick" else FLAGS[:3]:
+                    items.append({"card": card, "strat": st, "flags": fl, "angles": ANGLE_OPTS[0], "seed": seed, "depth": 3 if tier == "quick" else 4, "selection": True})
         items.sort(key=lambda it: 0 if "tf_function" in it["flags"][0] or it["flags"][0] == "jit" else 1)
         out += pool.run_items("mc.props.C05", "density_work", items)
         rep.extra["strategy_tuples"] = len(items)
@@ -368,7 +414,7 @@ def replay(case):
         fl = dict(FLAGS)
         an = dict(ANGLE_OPTS)
         return density_work({"card": (case["card"], cards[case["card"]]), "strat": (case["strat"], st[case["strat"]]), "flags": (case["flags"], fl[case["flags"]]),
-                             "angles": (case["angles"], an[case["angles"]]), "seed": 0, "depth": 5})["viol"]
+                             "angles": (case["angles"], an[case["angles"]]), "seed": 0, "depth": 4 if case.get("selection") else 5, "selection": bool(case.get("selection"))})["viol"]
     if case["part"] == "likelihood":
         return likelihood_work({"pair": case["pair"], "batches": [case["batch"]], "point": case["point"]})["viol"]
     return einsum_work({"exprs": [(case["expr"], [tuple(s) for s in case["shapes"]])], "kind": "replay"})["viol"]
